@@ -34,6 +34,7 @@ class Sched:
         self.names = {threading.current_thread(): "main"}
         self.killed = False
         self.deadlock = None
+        self.thread_errors = []
         self.max_steps = max_steps
         self.nthreads = 0
         self.returned = False  # set by the harness when the conversion call has returned
@@ -121,6 +122,10 @@ def make_patches(S, capacity=None):
                 super().run()
             except Kill:
                 return
+            except BaseException as e:
+                # a worker that dies with an exception leaves its queue unserved and nobody is told: note it and hand
+                # control on, so that the others run into the consequence (a deadlock the main thread reports)
+                S.thread_errors.append((me, f"{type(e).__name__}: {e}"))
             # the thread's function returned (a worker that retires): hand control on, or nobody would ever run
             st["pending"] = False
             S.trace.append((me, "exit"))
